@@ -708,7 +708,16 @@ func TestVerifC14(t *testing.T) {
 					time.Sleep(time.Duration(1e9 - ns))
 				}
 			}
-			h.run(sc, fmt.Sprintf("#%d %+v", k, sc))
+			func() {
+				// (a panic while stapling, caching or serving is a failing input like any other: "failure
+				// or outage of the responder never prevents a certificate from being cached and served")
+				defer func() {
+					if r := recover(); r != nil {
+						o.Mon("C14 panic-instead-of-cached-and-served", map[string]any{"scenario": fmt.Sprintf("#%d %+v", k, sc), "panic": fmt.Sprint(r)})
+					}
+				}()
+				h.run(sc, fmt.Sprintf("#%d %+v", k, sc))
+			}()
 			if l := vLeftovers(); len(l) > 0 {
 				o.Mon("C14 lock-left-behind", l)
 				locksMu.Lock()
